@@ -220,13 +220,13 @@ def _accumulator(col, rule="C05.R3"):
         for nid in cfg.nodes:
             for d in sx.cx.rd.defs.get(nid, []):
                 if d.name == out[2] and d.kind == "assign":
-                    v = sx.sym.of(d.value, nid)
-                    for a in S.instances(v):
-                        if a == out:
-                            continue
-                        if _is_fresh(a) and sx.under(nid, ("cmp", "is", out, ("const", "None"))):
-                            continue
-                        bad.append(f"{A.src(d.stmt)} under {[S.show(c) for c in sx.conds(nid)]}")
+                    for v, cs in sx.guarded_values(d.value, nid):
+                        for a in S.instances(v):
+                            if a == out:
+                                continue
+                            if _is_fresh(a) and ("cmp", "is", out, ("const", "None")) in cs:
+                                continue
+                            bad.append(f"{A.src(d.stmt)}: {S.show(a)} under {[S.show(c) for c in cs]}")
         col.add(rule, f"{q}#adds-into-given-accumulator", not bad, sx.loc(sx.fn),
                 "the accumulator passed by the parent node is replaced only when it is None -- never when it is merely empty "
                 "(parents ignore the return value, so a fresh set would lose the dependencies)", f"rebinding: {bad}")
